@@ -27,24 +27,25 @@ func (m *consumptions) SendToAll(p Pack, keyframe bool) {
 func (m *consumptions) RemoveAndCloseAll() {
 	m.Range(func(key, value interface{}) bool {
 		c := value.(*consumption)
-		m.Delete(key)
+		// 只有真正删除了该项的一方才减少计数（可能与 Remove 并发）
+		if _, ok := m.LoadAndDelete(key); ok {
+			atomic.AddInt32(&m.count, -1)
+		}
 		c.Close()
 		return true
 	})
-
-	atomic.StoreInt32(&m.count, 0)
 }
 
 func (m *consumptions) Add(c *consumption) {
-	m.Store(c.cid, c)
+	// 先计数后加入：保证并发删除时计数不会出现负值
 	atomic.AddInt32(&m.count, 1)
+	m.Store(c.cid, c)
 }
 
 func (m *consumptions) Remove(cid CID) *consumption {
-	ci, ok := m.Load(cid)
+	simhook.Y("consumptions.remove.beforeDelete")
+	ci, ok := m.LoadAndDelete(cid)
 	if ok {
-		simhook.Y("consumptions.remove.beforeDelete")
-		m.Delete(cid)
 		atomic.AddInt32(&m.count, -1)
 		return ci.(*consumption)
 	}
